@@ -55,7 +55,7 @@ func directedRestartRun(arm func(*Sim), amevOf3 uint64) func(*Tape, bool) *RunRe
 		for _, n := range s.nodes {
 			n.boot()
 		}
-		if s.directedRestartPrefix() {
+		if s.directedRestartPrefix(true) {
 			s.note("directed_prefix_completed")
 		} else {
 			s.note("directed_prefix_abandoned")
@@ -91,7 +91,7 @@ func (s *Sim) sentAt(n *Node, t dbft.MessageType, h uint32, v byte) *Payload {
 	return nil
 }
 
-func (s *Sim) directedRestartPrefix() bool {
+func (s *Sim) directedRestartPrefix(crash bool) bool {
 	sc := s.sc
 	h := sc.Start + 1
 	var x *Node
@@ -170,9 +170,11 @@ func (s *Sim) directedRestartPrefix() bool {
 	if vote == nil || s.viol != nil {
 		return false
 	}
-	// X dies; nobody got its vote
-	s.fault("crash_between_calls")
-	x.crash()
+	// X dies (or just is cut off); nobody got its vote
+	if crash {
+		s.fault("crash_between_calls")
+		x.crash()
+	}
 	// the others time out, hear each other, and agree on view 1
 	for round := 0; round < 3; round++ {
 		done := true
@@ -219,6 +221,9 @@ func (s *Sim) directedRestartPrefix() bool {
 		}
 		cvs = append(cvs, cv)
 	}
+	if !crash {
+		return s.viol == nil
+	}
 	// X comes back with empty state; its own old vote is still travelling
 	s.fault("restart")
 	x.boot()
@@ -235,4 +240,52 @@ func (s *Sim) directedRestartPrefix() bool {
 		s.give(x, vote)
 	}
 	return s.viol == nil
+}
+
+// directedLockRun (C09): the same prefix without the crash - one validator is (pre)commit-
+// locked alone in view 0, the others have agreed on view 1 - followed by a black-out that makes
+// view 1 fail as well, then synchrony.  The others (M of them when N=4) must go on to view 2
+// and decide; the locked one catches up from the ledger.
+func directedLockRun(arm func(*Sim)) func(*Tape, bool) *RunResult {
+	return func(t *Tape, record bool) *RunResult {
+		sc := directedScenario(t, 1)
+		sc.Family = "gst"
+		sc.Sub = 3 // faults before GST: the view bound for validators silent from the start is not judged
+		sc.Heights = 3
+		sc.Delta = int64(sc.TPB) / 50
+		sc.GST = (3 + t.Range(SScen, 0, 6)) * int64(sc.TPB)
+		sc.MaxTime = sc.GST + 400*int64(sc.TPB)
+		sc.MaxEvents = 400000
+		sc.SyncEvery = int64(sc.TPB)
+		sc.DropPM, sc.DupPM, sc.HeavyTail = 0, 0, false
+		crash := t.Chance(SScen, 1, 4)
+		s := NewSim(sc, t)
+		s.record = record
+		s.manual = true
+		arm(s)
+		s.installMapPerm()
+		defer func() { dbft.VerifMapPerm = nil }()
+		for _, n := range s.nodes {
+			n.boot()
+		}
+		if s.directedRestartPrefix(crash) {
+			s.note("directed_prefix_completed")
+		} else {
+			s.note("directed_prefix_abandoned")
+		}
+		s.manual = false
+		// black-out until GST: whatever view 1 tries is lost
+		for i := range s.cut {
+			s.cut[i] = true
+		}
+		s.fault("isolate_nodes")
+		s.push(&Event{At: sc.GST, Kind: EvPartHeal, Aux: 1})
+		for i := range s.nodes {
+			s.after(sc.SyncEvery+int64(i), &Event{Kind: EvSyncPoll, Node: i})
+		}
+		if s.viol == nil {
+			s.loop()
+		}
+		return &RunResult{Viol: s.viol, St: s.st, Scen: sc.Summary(), Trace: s.trace, SimCount: 1}
+	}
 }
